@@ -37,6 +37,7 @@ from lib import c20parse as P
 
 LEVEL = "exploration"
 SRC = "harness/c20_format.cpp"
+SRC_FAILMSG = "harness/c20_failmsg.cpp"
 NWORK = 16
 CAP = 12
 CAP_SIG = 2
@@ -1329,6 +1330,11 @@ def run(res, ctx):
             outs_x = rx.get()
     merge(res, outs_x, outs_a, forms, known, setup, tier, flags, logflags, stride)
     res.strings["wall_pipeline_s"] = "%.1f" % (time.time() - t0)
+    if not opts.get("only") and not opts.get("forms") and "arch" not in opts:
+        # leg 2: the message handed to the ErrorHandler for a rejected instruction (harness/c20_failmsg.cpp)
+        runner.run_harness(res, SRC_FAILMSG, "asan", tier, deadline=300, timeout=900, shards=1, label="failmsg")
+        b = [res.strings.get("bound"), res.strings.pop("bound_failmsg_leg", None)]
+        res.strings["bound"] = " || ".join(x for x in b if x)
 
 
 def merge(res, outs_x, outs_a, forms, known, setup, tier, flags, logflags, stride):
@@ -1427,8 +1433,11 @@ class _A64Case(object):
 
 
 def replay(res, path, ctx):
-    exe = vbuild.build("fast", os.path.join(vbuild.VERIF, SRC))
     txt = open(path).read()
+    if "harness=c20_failmsg" in txt:
+        runner.run_harness(res, SRC_FAILMSG, "asan", ctx["tier"], replay=path, timeout=300)
+        return
+    exe = vbuild.build("fast", os.path.join(vbuild.VERIF, SRC))
 
     def field(name):
         m = re.search(r"^%s: (.*)$" % name, txt, re.M)
